@@ -230,6 +230,12 @@ def parseFormulaValue (r : Bytes) : Res (Option Val) :=
     else .err "Unrecognized:error"
   else .ok (some (.float (u64At r 6)))
 
+/-- a numeric cached result is typed by the cell's XF like NUMBER / RK cells (`format_excel_f64`);
+    booleans, errors and strings are kept as they are -/
+def typeCached (env : Env) (ixfe : Nat) : Val → Val
+  | .float b => fmtF64 b env.fmts[ixfe]? env.is1904
+  | v => v
+
 /-- the state of the worksheet loop: `cells` (in push order) and `fmla_pos` -/
 structure St where
   cells : List Cell
@@ -306,7 +312,7 @@ def step (env : Env) (st : St) (r : Rec) : Res St :=
         else if r.data.length < 22 + u16At r.data 20 then .panic "parse_formula: rgce[2..2 + cce]"
         else
           match v with
-          | some v => .ok { cells := st.cells ++ [(pos.1, pos.2, v)], fmla := pos }
+          | some v => .ok { cells := st.cells ++ [(pos.1, pos.2, typeCached env (u16At r.data 4) v)], fmla := pos }
           | none => .ok { st with fmla := pos }
       | .err e => .err e
       | .panic s => .panic s
